@@ -1,4 +1,4 @@
-import MxModel.Proofs.CalcRun
+import MxModel.Proofs.CalcAnc
 /-!
 # C16 – Memory-optimised runs: the plan made by `get_calcsteps`
 
@@ -230,6 +230,22 @@ theorem run_correct_from (ordered : List Node) (succs preds : Node → List Node
     (execute preds (fuel + 1) (calcSteps ordered succs targets size) c0).log = c0.log ++ ordered :=
   run_from ordered succs preds targets size fuel c0 hz ht hd h0 h0i h0d hp
 
+/-- **run_correct_from_any** The same from ANY well-formed cache – user inputs and calculated values
+with their trace edges – as long as no value of the cache is a planned element and no trace edge of
+it starts at one (what `generate_actions` leaves): everything the cache held is exactly as before,
+inputs, values and edges; the targets are added, value-pasted; the planned elements ran once each. -/
+theorem run_correct_from_any (ordered : List Node) (succs preds : Node → List Node) (targets : List Node)
+    (size fuel : Nat) (c0 : Cache) (hz : 1 ≤ size) (ht : isTopo succs ordered = true) (hd : ordered.Nodup)
+    (h0 : c0.WF) (h0d : ∀ x ∈ c0.held, x ∉ ordered) (h0e : ∀ e ∈ c0.edges, e.1 ∉ ordered)
+    (hp : ∀ n ∈ ordered, ∀ p ∈ preds n, (p ∈ ordered ∧ n ∈ succs p) ∨ p ∈ c0.held) :
+    (∀ x, x ∈ (execute preds (fuel + 1) (calcSteps ordered succs targets size) c0).held ↔
+        (x ∈ targets ∧ x ∈ ordered) ∨ x ∈ c0.held) ∧
+    (∀ x, x ∈ (execute preds (fuel + 1) (calcSteps ordered succs targets size) c0).inputs ↔
+        (x ∈ targets ∧ x ∈ ordered) ∨ x ∈ c0.inputs) ∧
+    (∀ e, e ∈ (execute preds (fuel + 1) (calcSteps ordered succs targets size) c0).edges ↔ e ∈ c0.edges) ∧
+    (execute preds (fuel + 1) (calcSteps ordered succs targets size) c0).log = c0.log ++ ordered :=
+  run_from_any ordered succs preds targets size fuel c0 hz ht hd h0 h0d h0e hp
+
 /-- **run_correct** The same from the empty cache, for programs whose calls stay inside the plan. -/
 theorem run_correct (ordered : List Node) (succs preds : Node → List Node) (targets : List Node)
     (size fuel : Nat) (hz : 1 ≤ size) (ht : isTopo succs ordered = true) (hd : ordered.Nodup)
@@ -244,33 +260,95 @@ theorem run_correct (ordered : List Node) (succs preds : Node → List Node) (ta
     ⟨by simp, by simp⟩ (by simp) (by simp) (fun n hn p hpn => Or.inl (hp n hn p hpn))
   exact ⟨fun x => by simpa using a x, b, c, by simpa using d⟩
 
-/-- **generate_leaves_nothing** `generate_actions` (tracing the targets, then clearing every
-element it calculated) leaves a cache that held user inputs only exactly as it found it: the same
-held elements, the same input marks, no trace edge – for every program, target list, set of user
-inputs and call-depth bound. -/
+/-- **generate_leaves_nothing** (full strength since the repair 77e9cc3: ANY well-formed cache, user
+inputs and calculated values alike).  After `generate_actions` – tracing the targets, adding from
+the trace graph the values held before that the targets were calculated from, clearing all of
+them – the user inputs are exactly those it found; every value that is left was there before and
+is not a planned element; and no target that is not a user input, and nothing such a target was
+calculated from (`withAncs`: backwards along the trace edges) unless it is a user input, has a
+value.  For every program, target list and call-depth bound `≥ 1`. -/
 theorem generate_leaves_nothing (preds : Node → List Node) (fuel : Nat) (targets : List Node)
+    (c : Cache) (h : c.WF) :
+    (∀ x, x ∈ (generateLeaves preds (fuel + 1) targets c).inputs ↔ x ∈ c.inputs) ∧
+    (∀ x ∈ (generateLeaves preds (fuel + 1) targets c).held,
+      x ∈ c.held ∧ x ∉ planned preds (fuel + 1) targets c) ∧
+    (∀ t ∈ targets, t ∉ c.inputs →
+      ∀ p ∈ withAncs (traceTargets preds (fuel + 1) targets c).edges t, p ∉ c.inputs →
+        p ∉ (generateLeaves preds (fuel + 1) targets c).held) := by
+  obtain ⟨_, hin, hheld, _, _⟩ := generateLeaves_general preds (fuel + 1) targets c h
+  refine ⟨hin, hheld, ?_⟩
+  intro t ht hti p hp hpi hph
+  have hth := target_traced preds fuel targets c h t ht hti
+  apply (hheld p hph).2
+  by_cases hc : p ∈ calculated preds (fuel + 1) targets c
+  · exact List.mem_append_left _ hc
+  · exact List.mem_append_right _ (preHeld_of ht hti hth hp hc hpi)
+
+/-- … in particular a cache that held user inputs only is left exactly as it was found: the same
+held elements, the same input marks, no trace edge -/
+theorem generate_restores_inputs_only_cache (preds : Node → List Node) (fuel : Nat) (targets : List Node)
     (c : Cache) (h : c.WF) (hc : ∀ x ∈ c.held, x ∈ c.inputs) :
     (∀ x, x ∈ (generateLeaves preds fuel targets c).held ↔ x ∈ c.held) ∧
     (∀ x, x ∈ (generateLeaves preds fuel targets c).inputs ↔ x ∈ c.inputs) ∧
     (generateLeaves preds fuel targets c).edges = [] :=
   generateLeaves_spec preds fuel targets c h hc
 
-/-- **generate_plan_execute_correct** `generate_actions` composed with `execute_actions`, on a
-cache that holds user inputs only: trace the targets, plan ANY duplicate-free topological order
-(with respect to the trace edges the tracing recorded) of exactly the traced elements for the
-targets that are not user inputs, clear what was traced, execute.  If tracing ran to completion
-(`hdone`: when it ends, everything a traced element calls has a value – the call-depth bound was
-not hit), then at the end exactly the user inputs and the targets are held, all of them marked as
-inputs (the targets value-pasted), no trace edge is left, and the execution ran exactly the traced
-elements, each once, in the planned order.  `nx.topological_sort` is not modelled: the theorem holds
-for every order with the three stated properties (`hset`, `hd`, `ht`), which the correspondence
-run tests on every plan modelx returns. -/
+/-- **generate_plan_execute_correct** (full strength since the repair 77e9cc3: ANY well-formed
+cache).  `generate_actions` composed with `execute_actions`: trace the targets, add what the model
+held before that the targets were calculated from, plan ANY duplicate-free topological order (with
+respect to the recorded trace edges) of exactly these elements for the targets that are not user
+inputs, clear them, execute.  Well-formedness of the starting point: trace edges start at elements
+that have a value (`hct`); when tracing ends every calculated value has its callees held and the
+calls recorded (`hcomp`: the cache was complete, and tracing ran to completion – the depth bound was
+not hit).  (That the planned elements are then closed under callees – the backward search over the
+trace graph is complete, every traced element reaches a target – is proved: `planned_closed`.)  Then
+the targets are held and value-pasted; whatever else is held was held before
+`generate_actions` and is none of the planned elements – nothing a target was calculated from is
+left behind; the user inputs are those of the start plus the targets; the trace edges are those
+`generate_actions` left (none touches a planned element); and the execution ran exactly the
+planned elements, each once, in the planned order.  `nx.topological_sort` is not modelled: the
+theorem holds for every order with the stated properties (`hset`, `hd`, `ht`), which the
+correspondence run tests on every plan modelx returns. -/
 theorem generate_plan_execute_correct (preds : Node → List Node) (fuel fuel' : Nat)
+    (targets ordered : List Node) (size : Nat) (c : Cache) (hz : 1 ≤ size) (h : c.WF)
+    (hct : ∀ e ∈ c.edges, e.1 ∈ c.held)
+    (hcomp : ∀ n ∈ (traceTargets preds (fuel + 1) targets c).held, n ∉ c.inputs → ∀ p ∈ preds n,
+      p ∈ (traceTargets preds (fuel + 1) targets c).held ∧
+      (p, n) ∈ (traceTargets preds (fuel + 1) targets c).edges)
+    (hset : ∀ x, x ∈ ordered ↔ x ∈ planned preds (fuel + 1) targets c) (hd : ordered.Nodup)
+    (ht : isTopo (succsOf (traceTargets preds (fuel + 1) targets c).edges) ordered = true) :
+    (∀ x, x ∈ (execute preds (fuel' + 1)
+        (calcSteps ordered (succsOf (traceTargets preds (fuel + 1) targets c).edges)
+          (targets.filter (fun t => !decide (t ∈ c.inputs))) size)
+        (generateLeaves preds (fuel + 1) targets c)).held ↔
+      x ∈ targets ∨ x ∈ (generateLeaves preds (fuel + 1) targets c).held) ∧
+    (∀ x ∈ (generateLeaves preds (fuel + 1) targets c).held,
+      x ∈ c.held ∧ x ∉ planned preds (fuel + 1) targets c) ∧
+    (∀ x, x ∈ (execute preds (fuel' + 1)
+        (calcSteps ordered (succsOf (traceTargets preds (fuel + 1) targets c).edges)
+          (targets.filter (fun t => !decide (t ∈ c.inputs))) size)
+        (generateLeaves preds (fuel + 1) targets c)).inputs ↔ x ∈ targets ∨ x ∈ c.inputs) ∧
+    (∀ e, e ∈ (execute preds (fuel' + 1)
+        (calcSteps ordered (succsOf (traceTargets preds (fuel + 1) targets c).edges)
+          (targets.filter (fun t => !decide (t ∈ c.inputs))) size)
+        (generateLeaves preds (fuel + 1) targets c)).edges ↔
+      e ∈ (generateLeaves preds (fuel + 1) targets c).edges) ∧
+    (execute preds (fuel' + 1)
+        (calcSteps ordered (succsOf (traceTargets preds (fuel + 1) targets c).edges)
+          (targets.filter (fun t => !decide (t ∈ c.inputs))) size)
+        (generateLeaves preds (fuel + 1) targets c)).log =
+      (generateLeaves preds (fuel + 1) targets c).log ++ ordered :=
+  generate_then_execute_full preds fuel fuel' targets ordered size c hz h hct hcomp hset hd ht
+
+/-- **generate_plan_execute_inputs_only** the same from a cache that holds user inputs only: no
+hypothesis about the graph is needed, only that tracing ran to completion (`hdone`); at the end
+exactly the user inputs and the targets are held, all marked as inputs, no trace edge is left. -/
+theorem generate_plan_execute_inputs_only (preds : Node → List Node) (fuel fuel' : Nat)
     (targets ordered : List Node) (size : Nat) (c : Cache) (hz : 1 ≤ size) (h : c.WF)
     (hc : ∀ x ∈ c.held, x ∈ c.inputs)
     (hdone : ∀ n ∈ calculated preds (fuel + 1) targets c, ∀ p ∈ preds n,
       p ∈ (traceTargets preds (fuel + 1) targets c).held)
-    (hset : ∀ x, x ∈ ordered ↔ x ∈ calculated preds (fuel + 1) targets c) (hd : ordered.Nodup)
+    (hset : ∀ x, x ∈ ordered ↔ x ∈ planned preds (fuel + 1) targets c) (hd : ordered.Nodup)
     (ht : isTopo (succsOf (traceTargets preds (fuel + 1) targets c).edges) ordered = true) :
     (∀ x, x ∈ (execute preds (fuel' + 1)
         (calcSteps ordered (succsOf (traceTargets preds (fuel + 1) targets c).edges)
@@ -377,16 +455,16 @@ example : ∀ x, x ∈ (execute demoPredsIn 1
       (calcSteps [0, 2, 3, 4] (succsOf (traceTargets demoPredsIn 9 [4, 1] inCache).edges)
         ([4, 1].filter (fun t => !decide (t ∈ inCache.inputs))) 2)
       (generateLeaves demoPredsIn 9 [4, 1] inCache)).held ↔ x ∈ [4, 1] ∨ x ∈ inCache.held :=
-  (generate_plan_execute_correct demoPredsIn 8 0 [4, 1] [0, 2, 3, 4] 2 inCache (by decide)
+  (generate_plan_execute_inputs_only demoPredsIn 8 0 [4, 1] [0, 2, 3, 4] 2 inCache (by decide)
     ⟨by decide, by decide⟩ (by decide) (by decide)
     (fun x => by
-      rw [show calculated demoPredsIn (8 + 1) [4, 1] inCache = [4, 0, 3, 2] from by decide]
+      rw [show planned demoPredsIn (8 + 1) [4, 1] inCache = [4, 0, 3, 2] from by decide]
       simp only [List.mem_cons, List.not_mem_nil, or_false]
       constructor <;> (intro h; rcases h with h | h | h | h <;> simp [h]))
     (by decide) (by decide)).1
 
-/-! ### the full statements fail on a cache that already holds CALCULATED values
-(known finding C16-precomputed-values) -/
+/-! ### a cache that already holds CALCULATED values (finding C16-precomputed-values, repaired by
+77e9cc3): the full statements hold now; they were false of `generate_actions` as it was -/
 
 /-- the cache after `Cells3(2)` was evaluated directly: everything held, nothing an input -/
 def usedCache : Cache := evalNode demoPreds 9 4 {}
@@ -394,34 +472,69 @@ def usedCache : Cache := evalNode demoPreds 9 4 {}
 example : usedCache.WF ∧ usedCache.held = [0, 1, 2, 3, 4] ∧ usedCache.inputs = [] :=
   ⟨⟨by decide, by decide⟩, by decide, by decide⟩
 
-/-- "generating the actions leaves no calculated values behind" is false for a model that holds
-calculated values: nothing is traced, nothing is cleared -/
-theorem generate_leaves_nothing_full_statement_fails :
+/-- nothing is traced (the target has a value); everything the target was calculated from, and the
+target, is taken from the graph, planned and cleared -/
+example : calculated demoPreds 9 [4] usedCache = [] ∧
+    planned demoPreds 9 [4] usedCache = [4, 0, 3, 2, 1] ∧
+    generateLeaves demoPreds 9 [4] usedCache = { log := [4, 0, 3, 2, 1] } := by decide
+
+/-- only `Cells2(1)` (= 2) and what it was calculated from have values, and an unrelated `7`
+calculated from an unrelated `8`: the trace shows `4 3`, the graph adds `2 1 0`, `7` and `8` stay -/
+def partCache : Cache := evalNode (fun n => if n = 7 then [8] else demoPreds n) 9 7 (evalNode demoPreds 9 2 {})
+
+def partPreds : Node → List Node := fun n => if n = 7 then [8] else demoPreds n
+
+example : partCache.held = [0, 1, 2, 8, 7] ∧ calculated partPreds 9 [4] partCache = [4, 3] ∧
+    planned partPreds 9 [4] partCache = [4, 3, 0, 2, 1] ∧
+    (generateLeaves partPreds 9 [4] partCache).held = [8, 7] ∧
+    (generateLeaves partPreds 9 [4] partCache).edges = [(8, 7)] := by decide
+
+/-- the hypotheses of the full composed theorem are met on `partCache`, and its conclusion: the
+target is added, `7` and `8` are untouched, with their edge -/
+example : ∀ x, x ∈ (execute partPreds 1
+      (calcSteps [0, 1, 2, 3, 4] (succsOf (traceTargets partPreds 9 [4] partCache).edges)
+        ([4].filter (fun t => !decide (t ∈ partCache.inputs))) 2)
+      (generateLeaves partPreds 9 [4] partCache)).held ↔
+    x ∈ [4] ∨ x ∈ (generateLeaves partPreds 9 [4] partCache).held :=
+  (generate_plan_execute_correct partPreds 8 0 [4] [0, 1, 2, 3, 4] 2 partCache (by decide)
+    ⟨by decide, by decide⟩ (by decide) (by decide)
+    (fun x => by
+      rw [show planned partPreds (8 + 1) [4] partCache = [4, 3, 0, 2, 1] from by decide]
+      simp only [List.mem_cons, List.not_mem_nil, or_false]
+      constructor <;> (intro h; rcases h with h | h | h | h | h <;> simp [h]))
+    (by decide) (by decide)).1
+example : execute partPreds 1
+      (calcSteps [0, 1, 2, 3, 4] (succsOf (traceTargets partPreds 9 [4] partCache).edges) [4] 2)
+      (generateLeaves partPreds 9 [4] partCache) =
+    { held := [8, 7, 4], inputs := [4], edges := [(8, 7)], log := [2, 1, 0, 7, 8, 4, 3, 0, 1, 2, 3, 4] } := by decide
+
+/-- BEFORE 77e9cc3 (`generateLeavesTraceOnly`: only what the trace shows is planned and cleared)
+"generating the actions leaves no calculated values behind" was false for a model that holds
+calculated values: nothing is traced, nothing is cleared, the target keeps its value -/
+theorem generate_leaves_nothing_failed_before_77e9cc3 :
     ¬ ∀ (preds : Node → List Node) (fuel : Nat) (targets : List Node) (c : Cache), c.WF →
-      ∀ x ∈ (generateLeaves preds fuel targets c).held, x ∈ c.inputs := by
+      ∀ t ∈ targets, t ∉ c.inputs → t ∉ (generateLeavesTraceOnly preds (fuel + 1) targets c).held := by
   intro h
-  have := h demoPreds 9 [4] usedCache ⟨by decide, by decide⟩ 0 (by decide)
+  have := h demoPreds 8 [4] usedCache ⟨by decide, by decide⟩ 4 (by decide) (by decide)
   revert this; decide
 
-/-- … and the composed statement without "the cache holds user inputs only": the target is held,
-nothing is traced, the plan is empty, the execution does nothing, the values the target was
-calculated from stay (all the other hypotheses hold: `ordered = []`) -/
-theorem generate_plan_execute_full_statement_fails :
+/-- … and so was the composed statement: the target has a value, nothing is traced, the plan over the
+traced elements is empty, the execution does nothing – the target is not value-pasted and the
+values it was calculated from stay -/
+theorem generate_plan_execute_failed_before_77e9cc3 :
     ¬ ∀ (preds : Node → List Node) (fuel fuel' : Nat) (targets ordered : List Node) (size : Nat)
       (c : Cache), 1 ≤ size → c.WF →
-      (∀ n ∈ calculated preds (fuel + 1) targets c, ∀ p ∈ preds n,
-        p ∈ (traceTargets preds (fuel + 1) targets c).held) →
       (∀ x, x ∈ ordered ↔ x ∈ calculated preds (fuel + 1) targets c) → ordered.Nodup →
       isTopo (succsOf (traceTargets preds (fuel + 1) targets c).edges) ordered = true →
-      ∀ x, x ∈ (execute preds (fuel' + 1)
+      ∀ t ∈ targets, t ∈ (execute preds (fuel' + 1)
         (calcSteps ordered (succsOf (traceTargets preds (fuel + 1) targets c).edges)
           (targets.filter (fun t => !decide (t ∈ c.inputs))) size)
-        (generateLeaves preds (fuel + 1) targets c)).held → x ∈ targets ∨ x ∈ c.inputs := by
+        (generateLeavesTraceOnly preds (fuel + 1) targets c)).inputs := by
   intro h
-  have := h demoPreds 8 0 [4] [] 2 usedCache (by decide) ⟨by decide, by decide⟩ (by decide)
+  have := h demoPreds 8 0 [4] [] 2 usedCache (by decide) ⟨by decide, by decide⟩
     (fun x => by
       rw [show calculated demoPreds (8 + 1) [4] usedCache = [] from by decide])
-    (by decide) (by decide) 0 (by decide)
+    (by decide) (by decide) 4 (by decide)
   revert this; decide
 
 /-- a plan that clears too early is noticed by the cache model: the log shows the recomputation -/
